@@ -127,7 +127,7 @@ class Builder:
             self.in_rep -= 1
             f = self.fn(fctx, b, params="int x", ret="int", tail="return x;")
             stmts.append("a = %s (({ 1, 2 }), (: %s :));" % ("map" if k == "mapfp" else "filter", f))
-            one = "(call fplocal %s 1 1 %s)" % (t, " ".join(o))
+            one = "(cb fplocal %s 1 1 %s)" % (t, " ".join(o))
             ops.append("(tmp 3 %s %s)" % (one, one))
         elif k == "mapstr":
             self.in_rep += 1
@@ -135,19 +135,19 @@ class Builder:
             self.in_rep -= 1
             f = self.fn(fctx, b, params="int x", ret="int", tail="return x;")
             stmts.append('a = map (({ 1, 2 }), "%s", this_object ());' % f)
-            one = "(call other %s 1 1 %s)" % (t, " ".join(o))
+            one = "(cb other %s 1 1 %s)" % (t, " ".join(o))
             ops.append("(tmp 4 %s %s)" % (one, one))
         elif k == "sortfp":
             b, o = self.sub(fctx, depth)
             f = self.fn(fctx, b, params="int x, int y", ret="int", tail="return x - y;")
             stmts.append("a = sort_array (({ 2, 1 }), (: %s :));" % f)
-            one = "(call fplocal %s 2 2 %s)" % (t, " ".join(o))
+            one = "(cb fplocal %s 2 2 %s)" % (t, " ".join(o))
             ops.append("(tmp 2 %s)" % one)
         elif k == "unique":
             b, o = self.sub(fctx, depth)
             f = self.fn(fctx, b, params="object x", ret="int", tail="return 1;")
             stmts.append("a = unique_array (({ this_object () }), (: %s :));" % f)
-            ops.append("(tmp 2 (handler %d (call fplocal %s 1 1 %s)))" % (self.fresh(), t, " ".join(o)))
+            ops.append("(tmp 2 (handler %d (cb fplocal %s 1 1 %s)))" % (self.fresh(), t, " ".join(o)))
         elif k == "catch":
             b, o = self.sub(fctx, depth)
             f = self.fn(fctx, b)
@@ -235,7 +235,8 @@ class Builder:
         for fn in f["fns"]:
             protos.append(fn.split("{", 1)[0].strip() + ";")
         gl = " ".join(self.globals) if name == "t" else ""
-        lines = [l.replace("GLOBALS", gl) for l in HEAD[:3]] + protos + [l.replace("CREATE", f["create"]) for l in HEAD[3:]]
+        head = HEAD if name == "t" else [l.replace("seteuid (getuid ()); ", "") for l in HEAD]
+        lines = [l.replace("GLOBALS", gl) for l in head[:3]] + protos + [l.replace("CREATE", f["create"]) for l in head[3:]]
         lines += f.get("extra", [])
         lines.append("string vname () { %s return \"n\"; }" % " ".join(f["vname"]))
         lines += f["fns"]
@@ -283,6 +284,10 @@ def build_case(rng, cid, budget):
     if rng.chance(1, 8):
         reg = " " + rng.choice(["co", "po"]) + " probe"
     c = case_from(cid, files, " ".join(ops), inject="inject t run" + reg)
+    if rng.chance(1, 4):
+        # a low MaxCallDepth: the program meets "Too deep recursion" / a refusing save_context wherever its depth says
+        c.lines.insert(0, "maxdepth %d" % rng.range(7, 12))
+        b.kinds["lowdepth"] = 1
     c.meta["kinds"] = b.kinds
     return c
 
@@ -299,6 +304,42 @@ def fixed_case(cid, run_body, ops, fns=(), prep="", tail=(), inject="inject t ru
     return c
 
 
+DEPTH_ACTIONS = {
+    # action executed in the deepest rec() frame: (LPC statements, ops)
+    "catch": (None, "(catch (call local t 0 0 (say x))) (saycatch)"),
+    "safe": ('vsel = 1; s = sprintf ("%O", this_object ()); VL ("say after");',
+             "(tmp 1 (safe 1 1 (call other t 0 0 (call local t 0 0 (say x))))) (say after)"),
+    "ocall": ("this_object ()->leaf ();", "(call other t 0 0 (say x))"),
+    "lcall": ("leaf ();", "(call local t 0 0 (say x))"),
+    "fplocal": ("evaluate ((: leaf :));", "(call fplocal t 0 0 (say x))"),
+    "functional": ("evaluate ((: leafi () + $1 :), 1);", "(call functional t 1 1 (call local t 0 0 (say x)))"),
+    "efunp": ('evaluate ((: call_other, this_object (), "leaf" :));', "(call efunp t 0 0 (call other t 0 0 (say x)))"),
+}
+
+
+def depth_case(action, maxdepth, frames_at_action, outer_catch):
+    """recursion so that the action runs with exactly `frames_at_action` frames on the control stack"""
+    stmt, aops = DEPTH_ACTIONS[action]
+    if stmt is None:
+        stmt = CATCHSTMT % "leaf ()"
+    base = 2 if outer_catch else 1          # run() [+ the catch frame of the outer catch]
+    n = frames_at_action - base - 1         # rec(n) adds n + 1 frames
+    fns = ['void leaf () { VL ("say x"); }', 'int leafi () { VL ("say x"); return 1; }',
+           "void rec (int n) { %s if (n > 0) { rec (n - 1); return; } %s VL (\"say end\"); }" % (DECL, stmt)]
+    ops = aops + " (say end)"
+    for _ in range(n + 1):
+        ops = "(call local t 1 1 %s)" % ops
+    if outer_catch:
+        body = CATCHSTMT % ("rec (%d)" % n)
+        ops = "(catch %s) (saycatch)" % ops
+    else:
+        body = "rec (%d);" % n
+    cid = "b-depth-%s-%d-of-%d%s" % (action, frames_at_action, maxdepth, "-caught" if outer_catch else "")
+    c = fixed_case(cid, body, ops, fns=fns, vname="if (vsel == 1) leaf ();")
+    c.lines.insert(0, "maxdepth %d" % maxdepth)
+    return c
+
+
 CATCHSTMT = 'p0 = this_player (); e = catch (%s); VL ("catch " + e + (e && this_player () != p0 ? " cg-changed" : ""));'
 
 
@@ -306,7 +347,8 @@ class C05(Prop):
     id = "C05"
     title = "after any LPC error the machine state is as before the failed call"
     lean_modules = ["NV.C05.Exec", "NV.C05.Guards", "NV.C05.Props", "NV.C05.Witness"]
-    theorems = ["NV.C05.model_satisfies_spec", "NV.C05.exec_keeps_extension", "NV.C05.top_restores", "NV.C05.catch_yields_message_exec",
+    theorems = ["NV.C05.saveContext_refuses_iff", "NV.C05.catch_refused", "NV.C05.safeApply_refused",
+                "NV.C05.context_chain_restored_any", "NV.C05.model_satisfies_spec", "NV.C05.exec_keeps_extension", "NV.C05.top_restores", "NV.C05.catch_yields_message_exec",
                 "NV.C05.guards_reset_first_level", "NV.C05.exec_guards", "NV.C05.execCore_guards",
                 "NV.C05.restoreContext_guards", "NV.C05.exec_good", "NV.C05.execCore_good", "NV.C05.raise_rspec",
                 "NV.C05.runHandler_spec",
@@ -321,7 +363,8 @@ class C05(Prop):
                         "NV.C05.negative_pop_is_a_crash", "NV.C05.changed_register_is_not_restored",
                         "NV.C05.throw_does_not_reset_guards", "NV.C05.error_resets_guards_example",
                         "NV.C05.caught_throw_in_load_restores_guards", "NV.C05.catch_in_create_keeps_depth",
-                        "NV.C05.caught_throw_in_dhook_restores_guards"]
+                        "NV.C05.caught_throw_in_dhook_restores_guards", "NV.C05.catch_at_limit_keeps_chain",
+                        "NV.C05.safe_apply_at_limit_keeps_chain"]
     consts = [("frameFunction", "FRAME_FUNCTION"), ("frameFunp", "FRAME_FUNP"), ("frameCatch", "FRAME_CATCH"),
               ("frameFake", "FRAME_FAKE"), ("frameMask", "FRAME_MASK"),
               ("esStackFull", "ES_STACK_FULL"), ("esMaxEvalCost", "ES_MAX_EVAL_COST"),
@@ -416,6 +459,12 @@ class C05(Prop):
                             "(catch (tmp 1 (dhook t (call other t 1 1 (throw t8))))) (saycatch)",
                             fns=["object bx;"], prep=dprep % ("DT", "DT", "DT"),
                             extra_files={"DT": dsrc % 'throw ("t8");'}))
+        # the control-stack limit: every kind of frame push / save_context placed at exactly limit-2, limit-1 and limit
+        # frames (save_context refuses at `limit` frames and must leave the chain alone)
+        for action in sorted(DEPTH_ACTIONS):
+            for delta in (-2, -1, 0):
+                for outer in (False, True):
+                    B.append(depth_case(action, 8, 8 + delta, outer))
         # a register changed between save_context and the first frame push is not restored (model predicts it)
         B.append(fixed_case("b-setreg-co", "f1 ();", "(call local t 0 0 (say x))", fns=['void f1 () { VL ("say x"); }'],
                             inject="inject t run co probe"))
